@@ -298,3 +298,6 @@ PROPS["C18"]["claim"] = PROPS["C18"]["explanation"] = PROPS["C18"]["explanation"
     " lemma.C18.undeclared_variables_are_irrelevant: the value read depends on the environment only at the declared names (two environments that agree there give the same result).")
 PROPS["C12"]["claim"] = PROPS["C12"]["explanation"] = PROPS["C12"]["explanation"] + (
     " ParsePositional::meta (real body): a positional is shown with its metavariable and help, behind the `--` marker (Meta::Strict) iff it is `strict`.")
+PROPS["C09"]["claim"] = PROPS["C09"]["explanation"] = PROPS["C09"]["explanation"] + (
+    " lemma.C09.separator_is_never_delivered: in the state State::construct builds and in every state reachable under the trait invariant, the first `--` is unavailable to every consumer, "
+    "everything after it is a PosWord and nothing before it is.")
